@@ -35,6 +35,7 @@ type gor struct {
 	resumer *gor
 	what    string // what it is blocked on (diagnostics)
 	daemon  bool   // timer pseudo-goroutines etc.
+	yielding bool  // inside quiesce: runs again only when nobody else can
 }
 
 type enginePanic interface{ enginePanic() }
@@ -56,6 +57,8 @@ type scheduler struct {
 	cur          *gor
 	main         *gor
 	explore      bool
+	hooksOnly    bool // schedule decisions only at hook points: an arriving goroutine passes or waits to be overtaken
+	hookWaiters  map[string][]*gor
 	preemptBound int
 	preemptions  int
 	abort        interface{} // panic value to deliver to main
@@ -109,11 +112,18 @@ func (s *scheduler) isRunnable(g *gor) bool {
 }
 
 func (s *scheduler) runnable() []*gor {
-	var out []*gor
+	var out, low []*gor
 	for _, g := range s.gs {
 		if s.isRunnable(g) {
-			out = append(out, g)
+			if g.yielding && g != s.cur {
+				low = append(low, g)
+			} else {
+				out = append(out, g)
+			}
 		}
+	}
+	if len(out) == 0 {
+		return low
 	}
 	return out
 }
@@ -145,12 +155,15 @@ func (s *scheduler) dispatch() {
 	cur := s.cur
 	for {
 		rs := s.runnable()
+		if len(rs) == 0 && s.releaseHookWaiter() {
+			rs = s.runnable()
+		}
 		if len(rs) == 0 {
 			s.fail(deadlockPanic{s.describeBlocked()})
 			return
 		}
 		var next *gor
-		if s.explore && len(rs) > 1 {
+		if s.explore && !s.hooksOnly && len(rs) > 1 {
 			next = rs[CurPath.Choose("sched", "", len(rs))]
 		} else {
 			next = rs[0]
@@ -204,11 +217,73 @@ func (s *scheduler) describeBlocked() string {
 	return msg
 }
 
-// point is a scheduling point before a visible operation.
+// point is a scheduling point before a visible (synchronisation) operation.
 func (s *scheduler) point() {
+	if !s.explore || s.hooksOnly {
+		return
+	}
+	s.choosePoint()
+}
+
+// hookPoint is an explicit scheduling point in the repository (verifhook.Point).
+// Mode 2: an ordinary pre-emption point. Mode 1: the arriving goroutine either passes,
+// or waits until a later arrival at the same point has passed (or nothing else can run).
+func (s *scheduler) hookPoint(name string) {
 	if !s.explore {
 		return
 	}
+	if !s.hooksOnly {
+		s.choosePoint()
+		return
+	}
+	if CurPath.Choose("hook-wait:"+name, "", 2) == 1 {
+		cur := s.cur
+		if s.hookWaiters == nil {
+			s.hookWaiters = map[string][]*gor{}
+		}
+		s.hookWaiters[name] = append(s.hookWaiters[name], cur)
+		s.block("hook " + name)
+		return
+	}
+	// passing releases everybody waiting at this point
+	for _, g := range s.hookWaiters[name] {
+		s.ready(g)
+	}
+	delete(s.hookWaiters, name)
+}
+
+// yield: mode 2 = pre-emption point; mode 1 = let every other goroutine run until it blocks.
+func (s *scheduler) yield() {
+	if !s.explore {
+		return
+	}
+	if s.hooksOnly {
+		s.quiesce()
+		return
+	}
+	s.choosePoint()
+}
+
+func (s *scheduler) releaseHookWaiter() bool {
+	var best string
+	for n, ws := range s.hookWaiters {
+		if len(ws) > 0 && (best == "" || n < best) {
+			best = n
+		}
+	}
+	if best == "" {
+		return false
+	}
+	g := s.hookWaiters[best][0]
+	s.hookWaiters[best] = s.hookWaiters[best][1:]
+	if len(s.hookWaiters[best]) == 0 {
+		delete(s.hookWaiters, best)
+	}
+	s.ready(g)
+	return true
+}
+
+func (s *scheduler) choosePoint() {
 	if s.preemptBound >= 0 && s.preemptions >= s.preemptBound {
 		return
 	}
@@ -336,10 +411,12 @@ func (s *scheduler) killAll() {
 // quiesce runs all other goroutines until none is runnable, then returns to the caller.
 func (s *scheduler) quiesce() {
 	cur := s.cur
+	cur.yielding = true
+	defer func() { cur.yielding = false }()
 	for {
 		var next *gor
 		for _, g := range s.gs {
-			if g != cur && s.isRunnable(g) {
+			if g != cur && !g.yielding && s.isRunnable(g) {
 				next = g
 				break
 			}
@@ -555,7 +632,7 @@ func (s *scheduler) selectOp(cases []selCase, blocking bool) (int, value, bool) 
 	}
 	if len(ready) > 0 {
 		k := 0
-		if s.explore && len(ready) > 1 {
+		if s.explore && !s.hooksOnly && len(ready) > 1 {
 			k = CurPath.Choose("select", "", len(ready))
 		}
 		i := ready[k]
@@ -632,7 +709,6 @@ func (s *scheduler) unlock(p *value) {
 		panic(rtError("sync: unlock of unlocked mutex"))
 	}
 	m.locked = false
-	s.point()
 }
 
 func (s *scheduler) rlock(p *value) {
@@ -647,7 +723,6 @@ func (s *scheduler) runlock(p *value) {
 		panic(rtError("sync: RUnlock of unlocked RWMutex"))
 	}
 	m.readers--
-	s.point()
 }
 
 func (s *scheduler) wg(p *value) *wgObj {
